@@ -822,6 +822,11 @@ class C08(RunSpec):
         p["gscs"] = ["melimit"]
         p["fams"] = ["rastrigin", "funnel", "plateau", "sphere"]
         p["hibernation_p"] = 0.5  # sleeping demes are still active and occupy their slot
+        if idx % 10 == 4:
+            # a user-written filter that hands the candidates on in another order (best parents first, levels interleaved) ahead of
+            # LevelLimit, three levels, several candidates per parent
+            p.update({"n_levels": 3, "leaf": _cycle(["sea", "de", "cma"], idx // 10), "inner": _cycle(["sea", "de"], idx // 10), "root": _cycle(["sea", "de", "shade"], idx // 10),
+                      "sprout": "custom", "hibernation": False, "level_limit": 2 + (idx // 10) % 3, "gsc": "melimit", "fams": ["rastrigin", "funnel"], "free_lscs": True})
         if idx % 10 == 6:
             # the local-method generator offers candidates for parents that have just *stopped*; leaves that stay active keep their slots
             p.update({"n_levels": 3, "leaf": _cycle(["cma", "sea", "de"], idx // 10), "inner": _cycle(["cma", "sea"], idx // 10), "sprout": "custom", "hibernation": False,
@@ -830,6 +835,18 @@ class C08(RunSpec):
 
     def make_case(self, seed, idx, tier):
         d = super().make_case(seed, idx, tier)
+        if idx % 10 == 4 and d.get("kind") == "tree" and len(d["levels"]) == 3 and not d.get("reuse") and not d.get("soak"):
+            L = 2 + (idx // 10) % 3
+            rmin = min(b[1] - b[0] for b in d["box"]["bounds"])
+            d["sprout"] = {"k": "custom", "gen": {"k": "nbc", "df": 1.0, "trunc": 1.0}, "dfilters": [{"k": "far", "d": rmin * 0.02, "ord": 2}, {"k": "demelimit", "n": 2}, {"k": "userreorder"}],
+                           "tfilters": [{"k": "levellimit", "n": L}], "ll": L}
+            d["levels"][0]["lsc"] = {"k": "dontstop"}
+            d["levels"][1]["lsc"] = {"k": "dontstop"}
+            d["levels"][2]["lsc"] = {"k": "melimit", "n": 1 + (idx // 10) % 2}
+            for lv in d["levels"][:2]:
+                if "pop" in lv:
+                    lv["pop"] = max(lv["pop"], 10)
+            d["gsc"] = {"k": "melimit", "n": 10}
         if idx % 10 == 6 and d.get("kind") == "tree" and len(d["levels"]) == 3 and not d.get("reuse") and not d.get("soak"):
             d["sprout"] = {"k": "custom", "gen": {"k": "nbclocal", "df": 1.0, "trunc": 1.0}, "dfilters": [{"k": "demelimit", "n": 2}], "tfilters": [{"k": "levellimit", "n": 2}], "ll": 2}
             d["levels"][0]["lsc"] = {"k": "dontstop"}
@@ -844,6 +861,7 @@ class C08(RunSpec):
             ("C08.slot_refilled", 1, "slot freed and re-filled"),
             ("C08.level_full_seen", 1, "level full at a census"),
             ("C08.level_full_with_a_hibernating_deme", 1, "level full while one of its demes hibernates"),
+            ("C08.level_limit_handed_candidates_whose_parents_of_one_level_are_not_adjacent", 3, "LevelLimit called with a candidates dict in which the parents of one level are not adjacent"),
         ]
 
 
